@@ -38,6 +38,8 @@ func (f *Frame) callExtern(v ssa.Value, fn *ssa.Function, argVals []ssa.Value, a
 		est := f.p.tagOf(f.lookupType("Errors"))
 		tg := App(SInt, "tag", res[0])
 		f.enc.factAbout(res[0], And(Not(Eq(tg, Zero)), Not(Eq(tg, IntLit(int64(et)))), Not(Eq(tg, IntLit(int64(est))))))
+		// no *Error in the chain (fmt.Errorf is only used with sentinel or plain errors)
+		f.enc.factAbout(res[0], Eq(unwrapTerm(f.enc, f.p, res[0], types.NewPointer(f.lookupType("Error"))), Zero))
 		f.setResults(v, res)
 	case "errors.As":
 		f.externErrorsAs(v, argVals, args, pos)
@@ -116,7 +118,7 @@ func (f *Frame) ghostInc(name string) {
 func externDoc(name string) string {
 	switch {
 	case name == "fmt.Errorf" || name == "errors.New":
-		return "returns a fresh non-nil error whose dynamic type is neither *Error nor Errors"
+		return "returns a fresh non-nil error whose dynamic type is neither *Error nor Errors and whose chain holds no *Error"
 	case name == "errors.As":
 		return "finds the first *Error / Errors in the chain; exact when the error itself has the target type"
 	case name == "strconv.ParseInt" || name == "strconv.ParseFloat":
